@@ -158,7 +158,7 @@ def _class_case_return(f, var, K):
                 continue
             if isinstance(st, (ast.Return, ast.Raise)):
                 return st
-            if isinstance(st, (ast.Expr, ast.Pass, ast.Assert)):
+            if isinstance(st, (ast.Expr, ast.Pass, ast.Assert, ast.Import, ast.ImportFrom)):
                 continue
             raise _Undecided('statement ' + type(st).__name__)
         return None
